@@ -61,7 +61,8 @@ theorem no_self (h : Heap) (op : Op) (hinv : ∀ j, j ∉ h.req j) :
     · rename_i h1' heq; rw [heq] at h1; simpa using h1
   | requires j args remove => exact reqArgs_noself j remove h args hinv
   | newSeq q items required sched =>
-    have h1 := chain_noself (h.setSeqJobs q (flattenSeq h items)) none (flattenSeq h items) hinv
+    have h1 := chain_noself ((h.setSeqJobs q (flattenSeq h items)).setSeqPending q []) none
+      (flattenSeq h items) hinv
     simp only [interp]
     split
     · simpa [Heap.setSeqSched] using h1
@@ -75,7 +76,10 @@ theorem no_self (h : Heap) (op : Op) (hinv : ∀ j, j ∉ h.req j) :
     split
     · exact hinv
     · have h1 := chain_noself h (h.seqJobs q).getLast? (flattenSeq h items) hinv
-      simpa [Heap.setSeqJobs] using h1
+      have h2 := givePending_noself
+        ((chain h (h.seqJobs q).getLast? (flattenSeq h items)).setSeqJobs q
+          (h.seqJobs q ++ flattenSeq h items)) q h1
+      simpa using h2
   | seqRequires q args =>
     simp only [interp]
     split
@@ -136,7 +140,8 @@ theorem chain_only (h : Heap) (prev : Option Nat) (l : List Nat) (x y : Nat)
       · exact Or.inr ⟨List.mem_cons_of_mem _ h1, h2⟩
 
 /-- `Sequence(*items, required=r)`: the sequence holds the flattened jobs in order; each requires its
-    predecessor; the first one received `required=`; no other requirement was added, none removed -/
+    predecessor; the first one received `required=`; no other requirement was added, none removed;
+    when there is no job, `required=` is remembered for the first job to come (and only then) -/
 theorem newSeq_spec (h : Heap) (q : Nat) (items : List Arg) (r : Arg) (sch : Option Nat) :
     let h' := (interp h (.newSeq q items r sch)).1
     let js := flattenSeq h items
@@ -146,41 +151,74 @@ theorem newSeq_spec (h : Heap) (q : Nat) (items : List Arg) (r : Arg) (sch : Opt
     (∀ j0, js.head? = some j0 → ∀ x ∈ flat (h.setSeqJobs q js) r, x ≠ j0 → x ∈ h'.req j0) ∧
     (∀ x y, y ∈ h'.req x → y ∈ h.req x ∨ ((y, x) ∈ pairs js ∧ y ≠ x) ∨
         (js.head? = some x ∧ y ∈ flat (h.setSeqJobs q js) r ∧ y ≠ x)) ∧
-    (∀ x y, y ∈ h.req x → y ∈ h'.req x) := by
+    (∀ x y, y ∈ h.req x → y ∈ h'.req x) ∧
+    (js = [] → h'.seqPending q = flat (h.setSeqJobs q js) r) ∧
+    (js ≠ [] → h'.seqPending q = []) ∧
+    (∀ k, k ≠ q → h'.seqPending k = h.seqPending k) := by
   intro h' js
   -- the heap after chaining
-  have hc_sj : (chain (h.setSeqJobs q js) none js).seqJobs = (h.setSeqJobs q js).seqJobs :=
-    chain_seqJobs _ _ _
-  have hlinks := chain_links (h.setSeqJobs q js) none js
-  have honly := chain_only (h.setSeqJobs q js) none js
-  have hmono := chain_mono (h.setSeqJobs q js) none js
+  have hc_sj : (chain ((h.setSeqJobs q js).setSeqPending q []) none js).seqJobs
+      = (h.setSeqJobs q js).seqJobs := chain_seqJobs _ _ _
+  have hc_sp : (chain ((h.setSeqJobs q js).setSeqPending q []) none js).seqPending
+      = ((h.setSeqJobs q js).setSeqPending q []).seqPending := chain_seqPending _ _ _
+  have hlinks := chain_links ((h.setSeqJobs q js).setSeqPending q []) none js
+  have honly := chain_only ((h.setSeqJobs q js).setSeqPending q []) none js
+  have hmono := chain_mono ((h.setSeqJobs q js).setSeqPending q []) none js
   simp only [Option.toList_none, List.nil_append] at hlinks honly
   cases hjs : js with
   | nil =>
     have e : interp h (.newSeq q items r sch) =
-        (register ((chain (h.setSeqJobs q []) none []).setSeqSched q sch) sch [], none) := by
+        (register (((chain ((h.setSeqJobs q []).setSeqPending q []) none []).setSeqPending q
+          ((chain ((h.setSeqJobs q []).setSeqPending q []) none []).seqPending q ++
+            resolves (chain ((h.setSeqJobs q []).setSeqPending q []) none []) [r])).setSeqSched q sch)
+          sch [], none) := by
       simp only [interp]; rw [show flattenSeq h items = [] from hjs]
+    have hfl : resolves ((h.setSeqJobs q []).setSeqPending q []) [r] = flat (h.setSeqJobs q []) r := by
+      rw [(resolve_eq_flat _).2,
+        (flat_congr (h.setSeqJobs q []) ((h.setSeqJobs q []).setSeqPending q []) rfl).2]
+      simp [flats]
     simp only [h', e]
-    simp [chain, Heap.setSeqSched, Heap.setSeqJobs, pairs]
+    refine ⟨trivial, ?_, ?_, ?_, ?_, ?_, ?_, ?_, ?_⟩
+    · simp [chain, Heap.setSeqSched, Heap.setSeqJobs]
+    · simp [pairs]
+    · simp
+    · intro x y hy
+      exact Or.inl (by simpa [chain, Heap.setSeqSched, Heap.setSeqJobs] using hy)
+    · intro x y hy
+      simpa [chain, Heap.setSeqSched, Heap.setSeqJobs] using hy
+    · intro _
+      simp only [register_seqPending, setSeqSched_seqPending, setSeqPending_self, chain, hfl]
+      simp
+    · intro hne; exact absurd rfl hne
+    · intro k hk
+      simp only [register_seqPending, setSeqSched_seqPending, chain]
+      rw [setSeqPending_ne _ _ _ _ hk, setSeqPending_ne _ _ _ _ hk]; rfl
   | cons j0 rest =>
-    rw [hjs] at hc_sj hlinks honly hmono
-    have hflat : flat (chain (h.setSeqJobs q (j0 :: rest)) none (j0 :: rest)) r
+    rw [hjs] at hc_sj hc_sp hlinks honly hmono
+    have hflat : flat (chain ((h.setSeqJobs q (j0 :: rest)).setSeqPending q []) none (j0 :: rest)) r
         = flat (h.setSeqJobs q (j0 :: rest)) r := (flat_congr _ _ hc_sj).1 r
-    have hadd := (req_add_aux j0).1 (chain (h.setSeqJobs q (j0 :: rest)) none (j0 :: rest)) r
+    have hadd := (req_add_aux j0).1
+      (chain ((h.setSeqJobs q (j0 :: rest)).setSeqPending q []) none (j0 :: rest)) r
     rw [hflat] at hadd
-    have hne := reqArg_req_ne j0 false (chain (h.setSeqJobs q (j0 :: rest)) none (j0 :: rest)) r
-    have hsj := reqArg_seqJobs j0 false (chain (h.setSeqJobs q (j0 :: rest)) none (j0 :: rest)) r
-    have hm2 := reqArg_false_mono j0 (chain (h.setSeqJobs q (j0 :: rest)) none (j0 :: rest)) r
+    have hne := reqArg_req_ne j0 false
+      (chain ((h.setSeqJobs q (j0 :: rest)).setSeqPending q []) none (j0 :: rest)) r
+    have hsj := reqArg_seqJobs j0 false
+      (chain ((h.setSeqJobs q (j0 :: rest)).setSeqPending q []) none (j0 :: rest)) r
+    have hsp := reqArg_seqPending j0 false
+      (chain ((h.setSeqJobs q (j0 :: rest)).setSeqPending q []) none (j0 :: rest)) r
+    have hm2 := reqArg_false_mono j0
+      (chain ((h.setSeqJobs q (j0 :: rest)).setSeqPending q []) none (j0 :: rest)) r
     have e : interp h (.newSeq q items r sch) =
-        (register ((reqArg j0 false (chain (h.setSeqJobs q (j0 :: rest)) none (j0 :: rest)) r).1.setSeqSched
+        (register ((reqArg j0 false
+          (chain ((h.setSeqJobs q (j0 :: rest)).setSeqPending q []) none (j0 :: rest)) r).1.setSeqSched
           q sch) sch (j0 :: rest), none) := by
       simp only [interp]; rw [show flattenSeq h items = j0 :: rest from hjs]
       simp only
       split
       · rename_i h2 e heq; rw [heq] at hadd; simp at hadd
       · rename_i h2 heq; rw [heq]
-    simp only [h', e, register_req, register_seqJobs]
-    refine ⟨trivial, ?_, ?_, ?_, ?_, ?_⟩
+    simp only [h', e, register_req, register_seqJobs, register_seqPending, setSeqSched_seqPending]
+    refine ⟨trivial, ?_, ?_, ?_, ?_, ?_, ?_, ?_, ?_⟩
     · show (reqArg j0 false _ r).1.seqJobs q = _
       rw [hsj, hc_sj]; simp [Heap.setSeqJobs]
     · intro p hp hpne
@@ -204,26 +242,198 @@ theorem newSeq_spec (h : Heap) (q : Nat) (items : List Arg) (r : Arg) (sch : Opt
         · exact Or.inr (Or.inl h3)
     · intro x y hy
       exact hm2 _ _ (hmono _ _ hy)
+    · intro hnil; exact absurd hnil (List.cons_ne_nil _ _)
+    · intro _
+      rw [hsp, hc_sp]; simp
+    · intro k hk
+      rw [hsp, hc_sp, setSeqPending_ne _ _ _ _ hk]; rfl
 
-/-- `q.append(*items)` with at least one argument: the new jobs are chained behind the last one -/
+/-- `q.append(*items)` with at least one argument: the new jobs are chained behind the last one; the
+    first job of the sequence (a new one when the sequence had none) receives the requirements that
+    were pending, which are pending no more; nothing else is added, nothing removed -/
 theorem append_spec (h : Heap) (q : Nat) (items : List Arg) (hne : items ≠ []) :
     let h' := (interp h (.append q items)).1
     let new := flattenSeq h items
     (interp h (.append q items)).2 = none ∧
     h'.seqJobs q = h.seqJobs q ++ new ∧
     (∀ p ∈ pairs ((h.seqJobs q).getLast?.toList ++ new), p.1 ≠ p.2 → p.1 ∈ h'.req p.2) ∧
+    (∀ j0, (h.seqJobs q ++ new).head? = some j0 → ∀ x ∈ h.seqPending q, x ≠ j0 → x ∈ h'.req j0) ∧
     (∀ x y, y ∈ h'.req x → y ∈ h.req x ∨
-        ((y, x) ∈ pairs ((h.seqJobs q).getLast?.toList ++ new) ∧ y ≠ x)) ∧
-    (∀ x y, y ∈ h.req x → y ∈ h'.req x) := by
+        ((y, x) ∈ pairs ((h.seqJobs q).getLast?.toList ++ new) ∧ y ≠ x) ∨
+        ((h.seqJobs q ++ new).head? = some x ∧ y ∈ h.seqPending q ∧ y ≠ x)) ∧
+    (∀ x y, y ∈ h.req x → y ∈ h'.req x) ∧
+    (h.seqJobs q ++ new ≠ [] → h'.seqPending q = []) ∧
+    (h.seqJobs q ++ new = [] → h'.seqPending q = h.seqPending q) ∧
+    (∀ k, k ≠ q → h'.seqPending k = h.seqPending k) := by
   have hie : items.isEmpty = false := by cases items <;> simp_all
-  have hreq : (interp h (.append q items)).1.req
-      = (chain h (h.seqJobs q).getLast? (flattenSeq h items)).req := by
-    simp [interp, hie, Heap.setSeqJobs]
   intro h' new
-  refine ⟨by simp [interp, hie], by simp [h', new, interp, hie, Heap.setSeqJobs], ?_, ?_, ?_⟩
-  · intro p hp hne; simp only [h', hreq]; exact chain_links _ _ _ p hp hne
-  · intro x y hy; simp only [h', hreq] at hy; exact chain_only _ _ _ x y hy
-  · intro x y hy; simp only [h', hreq]; exact chain_mono _ _ _ x y hy
+  -- the heap after `self.jobs += new_jobs`
+  let h2 := (chain h (h.seqJobs q).getLast? new).setSeqJobs q (h.seqJobs q ++ new)
+  have e : interp h (.append q items) = (register (givePending h2 q) (h.seqSched q) new, none) := by
+    simp [interp, hie, h2, new]
+  have h2req : h2.req = (chain h (h.seqJobs q).getLast? new).req := rfl
+  have h2sj : h2.seqJobs q = h.seqJobs q ++ new := by simp [h2, Heap.setSeqJobs]
+  have h2sp : h2.seqPending = h.seqPending := by
+    show (chain h (h.seqJobs q).getLast? new).seqPending = _
+    exact chain_seqPending _ _ _
+  have hreq : ∀ x y, y ∈ h'.req x ↔
+      (y ∈ (chain h (h.seqJobs q).getLast? new).req x ∨
+        ((h.seqJobs q ++ new).head? = some x ∧ y ∈ h.seqPending q ∧ y ≠ x)) := by
+    intro x y
+    simp only [h', e, register_req]
+    rw [givePending_req, h2req, h2sj, h2sp]
+  have hsp : h'.seqPending = (givePending h2 q).seqPending := by
+    simp only [h', e, register_seqPending]
+  refine ⟨by rw [e], ?_, ?_, ?_, ?_, ?_, ?_, ?_, ?_⟩
+  · simp only [h', e, register_seqJobs]
+    rw [givePending_seqJobs]; exact h2sj
+  · intro p hp hpne
+    exact (hreq _ _).2 (Or.inl (chain_links _ _ _ p hp hpne))
+  · intro j0 hj0 x hx hxne
+    exact (hreq _ _).2 (Or.inr ⟨hj0, hx, hxne⟩)
+  · intro x y hy
+    rcases (hreq _ _).1 hy with h1 | h1
+    · rcases chain_only _ _ _ x y h1 with h3 | h3
+      · exact Or.inl h3
+      · exact Or.inr (Or.inl h3)
+    · exact Or.inr (Or.inr h1)
+  · intro x y hy
+    exact (hreq _ _).2 (Or.inl (chain_mono _ _ _ x y hy))
+  · intro hnn
+    rw [hsp]; exact givePending_pending_cons h2 q (by rw [h2sj]; exact hnn)
+  · intro hnil
+    rw [hsp, givePending_pending_nil h2 q (by rw [h2sj]; exact hnil), h2sp]
+  · intro k hk
+    rw [hsp, givePending_pending_ne _ _ _ hk, h2sp]
+
+/-- the other sequences keep their jobs -/
+theorem newSeq_seqJobs_ne (h : Heap) (q : Nat) (items : List Arg) (r : Arg) (sch : Option Nat)
+    (k : Nat) (hk : k ≠ q) : (interp h (.newSeq q items r sch)).1.seqJobs k = h.seqJobs k := by
+  have hc := chain_seqJobs ((h.setSeqJobs q (flattenSeq h items)).setSeqPending q []) none
+    (flattenSeq h items)
+  simp only [interp]
+  split
+  · simp only [register_seqJobs]
+    show (chain _ none _).seqJobs k = _
+    rw [hc]; simp [Heap.setSeqJobs, hk]
+  · rename_i j0 rest hjs
+    have hj := reqArg_seqJobs j0 false
+      (chain ((h.setSeqJobs q (flattenSeq h items)).setSeqPending q []) none (flattenSeq h items)) r
+    split
+    · rename_i h2 e heq; rw [heq] at hj; simp only at hj ⊢
+      rw [hj, hc]; simp [Heap.setSeqJobs, hk]
+    · rename_i h2 heq; rw [heq] at hj; simp only [register_seqJobs] at hj ⊢
+      show h2.seqJobs k = _
+      rw [hj, hc]; simp [Heap.setSeqJobs, hk]
+
+theorem append_seqJobs_ne (h : Heap) (q : Nat) (items : List Arg) (k : Nat) (hk : k ≠ q) :
+    (interp h (.append q items)).1.seqJobs k = h.seqJobs k := by
+  simp only [interp]
+  split
+  · rfl
+  · simp only [register_seqJobs, givePending_seqJobs]
+    show (if k = q then _ else (chain h _ _).seqJobs k) = _
+    rw [if_neg hk, chain_seqJobs]
+
+/-- the first job that `append` brings to a sequence without jobs receives what the sequence was
+    given before (`required=` of the constructor, `requires()`), itself excepted; nothing stays pending -/
+theorem pending_given (h : Heap) (q : Nat) (items : List Arg) (j0 : Nat) (rest : List Nat)
+    (hq : h.seqJobs q = []) (hfl : flattenSeq h items = j0 :: rest) :
+    (∀ x ∈ h.seqPending q, x ≠ j0 → x ∈ (interp h (.append q items)).1.req j0) ∧
+    (interp h (.append q items)).1.seqPending q = [] := by
+  have hne : items ≠ [] := by
+    intro e; subst e; simp [flattenSeq] at hfl
+  have hs := append_spec h q items hne
+  simp only [hq, hfl, List.nil_append] at hs
+  exact ⟨hs.2.2.2.1 j0 rfl, hs.2.2.2.2.2.2.1 (List.cons_ne_nil _ _)⟩
+
+/-- `q.requires(*args)` on a sequence without jobs: no requirement changes; the jobs the arguments
+    stand for (at that moment) are added, in order, to what is pending for `q`; nothing else changes -/
+theorem pending_kept (h : Heap) (q : Nat) (args : List Arg) (hq : h.seqJobs q = []) :
+    (interp h (.seqRequires q args)).2 = none ∧
+    (interp h (.seqRequires q args)).1.req = h.req ∧
+    (interp h (.seqRequires q args)).1.seqPending q = h.seqPending q ++ flats h args ∧
+    (∀ k, k ≠ q → (interp h (.seqRequires q args)).1.seqPending k = h.seqPending k) ∧
+    (interp h (.seqRequires q args)).1.seqJobs = h.seqJobs ∧
+    (interp h (.seqRequires q args)).1.mem = h.mem ∧
+    (interp h (.seqRequires q args)).1.seqSched = h.seqSched := by
+  have e : interp h (.seqRequires q args)
+      = (h.setSeqPending q (h.seqPending q ++ resolves h args), none) := by
+    simp only [interp, hq]
+  rw [e]
+  refine ⟨rfl, rfl, ?_, ?_, rfl, rfl, rfl⟩
+  · rw [(resolve_eq_flat h).2]; simp
+  · intro k hk; exact setSeqPending_ne _ _ _ _ hk
+
+/-- requirements are pending only for sequences without jobs: invariant of every statement -/
+theorem pending_inv (h : Heap) (op : Op) (hinv : ∀ q, h.seqJobs q ≠ [] → h.seqPending q = []) :
+    ∀ q, (interp h op).1.seqJobs q ≠ [] → (interp h op).1.seqPending q = [] := by
+  cases op with
+  | newJob j required sched =>
+    have hj := reqArg_seqJobs j false (h.setReq j []) required
+    have hp := reqArg_seqPending j false (h.setReq j []) required
+    simp only [interp]
+    split
+    · rename_i h1 e heq; rw [heq] at hj hp; simp only at hj hp ⊢
+      rw [hj, hp]; exact hinv
+    · rename_i h1 heq; rw [heq] at hj hp
+      simp only [register_seqJobs, register_seqPending] at hj hp ⊢
+      rw [hj, hp]; exact hinv
+  | newSched s items required sched =>
+    have hj := reqArg_seqJobs s false
+      ((h.setMem s (unionNew [] (flattenSeq h items))).setReq s []) required
+    have hp := reqArg_seqPending s false
+      ((h.setMem s (unionNew [] (flattenSeq h items))).setReq s []) required
+    simp only [interp]
+    split
+    · rename_i h1 e heq; rw [heq] at hj hp; simp only at hj hp ⊢
+      rw [hj, hp]; exact hinv
+    · rename_i h1 heq; rw [heq] at hj hp
+      simp only [register_seqJobs, register_seqPending] at hj hp ⊢
+      rw [hj, hp]; exact hinv
+  | requires j args remove =>
+    simp only [interp]
+    rw [reqArgs_seqJobs, reqArgs_seqPending]; exact hinv
+  | newSeq q items required sched =>
+    intro q'
+    have hs := newSeq_spec h q items required sched
+    simp only at hs
+    by_cases hq : q' = q
+    · subst hq; intro hj; rw [hs.2.1] at hj; exact hs.2.2.2.2.2.2.2.1 hj
+    · rw [hs.2.2.2.2.2.2.2.2 q' hq, newSeq_seqJobs_ne h q items required sched q' hq]
+      exact hinv q'
+  | append q items =>
+    by_cases hi : items = []
+    · subst hi; simpa [interp] using hinv
+    · intro q'
+      have hs := append_spec h q items hi
+      simp only at hs
+      by_cases hq : q' = q
+      · subst hq; intro hj; rw [hs.2.1] at hj; exact hs.2.2.2.2.2.2.1 hj
+      · rw [hs.2.2.2.2.2.2.2.2 q' hq, append_seqJobs_ne h q items q' hq]
+        exact hinv q'
+  | seqRequires q args =>
+    simp only [interp]
+    split
+    · rename_i hj0
+      intro q'
+      by_cases hq : q' = q
+      · subst hq; intro hj; exact absurd hj0 hj
+      · rw [setSeqPending_ne _ _ _ _ hq]; exact hinv q'
+    · rw [reqArgs_seqJobs, reqArgs_seqPending]; exact hinv
+  | add s x => simpa [interp] using hinv
+  | update s xs => simpa [interp] using hinv
+  | removeJob s j =>
+    simp only [interp]
+    split
+    · exact hinv
+    · exact hinv
+
+/-- the repaired scenario: a requirement given to a sequence that has no job yet reaches the first job -/
+example :
+    (run Heap.empty [.newJob 0 .none none, .newJob 1 .none none, .newSeq 0 [] (.job 1) none,
+      .append 0 [.job 0]]).1.req 0 = [1] := by
+  decide
 
 /-- `scheduler=`, `add()`, `update()` register every job involved, once -/
 theorem register_spec (h : Heap) (s : Nat) (js : List Nat) (hnd : (h.mem s).Nodup) :
